@@ -652,5 +652,5 @@ func TestStalledSubscriber(t *testing.T) {
 
 func TestReplay(t *testing.T) {
 	defer stopServer()
-	kit.Replay[SeqCase](t, map[string]func(kit.RawCase) kit.Outcome{"seq": kit.ReplaySub(execSeq), "conc": kit.ReplaySub(execConc), "stall": kit.ReplaySub(execStall)})
+	kit.Replay[SeqCase](t, map[string]func(kit.RawCase) kit.Outcome{"seq": kit.ReplaySub(execSeq), "conc": kit.ReplaySub(execConc), "stall": kit.ReplaySub(execStall), "race": kit.ReplaySub(execRace)})
 }
